@@ -433,6 +433,9 @@ pub fn level_into(which: Which, rep: &mut Report) {
     // every schedule with a bounded number of preemptions of the tiny programs
     bounded_sweep(which, rep, tier.pick(2, 4), 10_000, tier.pick(5_000, 400_000));
     // the long-running exchange workload (every tier; sized by the tier)
+    if which == Which::C13 {
+        bystander(rep, ncpu().saturating_sub(1).clamp(2, 12), budget(tier, 150_000, 3_000_000));
+    }
     // (the acknowledgement checker is quadratic in the history length: C13 keeps the short run)
     let ex_ops = if which == Which::C13 { budget(tier, 6_000, 10_000) } else { budget(tier, 6_000, 60_000) };
     exchange(rep, which, ex_ops);
@@ -2107,4 +2110,139 @@ pub fn bounded_queue_sweep(rep: &mut Report, bound: u32, max_runs_per_program: u
     rep.set("queue_bounded_sweep_executions", json!(t.0));
     rep.set("queue_bounded_sweep_programs_fully_enumerated", json!(t.1));
     rep.set("queue_bounded_sweep_program_pool", json!(progs.len()));
+}
+
+// ---------------------------------------------------------------------------------------------
+// C13 "bystander" workload (E2): one order that nobody else ever touches is amended in a loop
+// while many threads add / cancel / amend OTHER ids at full speed.  No other thread can hold it,
+// so every not-found for it is a violation - the sharpest oracle for lookups that fail
+// spuriously under real contention (e.g. a try-lock on a busy map shard).
+// ---------------------------------------------------------------------------------------------
+
+pub fn bystander(rep: &mut Report, threads: usize, ops: u64) {
+    use pricelevel::OrderUpdate;
+    use std::sync::atomic::{AtomicBool, AtomicU64, Ordering::SeqCst};
+    crate::hook::install();
+    let seed = rep.seed;
+    let price = 50u64;
+    let level = Arc::new(PriceLevel::new(price));
+    let mk = |n: u64, q: u64| {
+        model::mk(
+            model::Kind::Standard,
+            model::oid(n),
+            price,
+            q,
+            0,
+            pricelevel::Side::Sell,
+            n,
+            pricelevel::TimeInForce::Gtc,
+            &model::Params::default(),
+        )
+    };
+    let xs: Vec<pricelevel::OrderId> = (1..=3u64).map(|n| model::oid(n)).collect();
+    level.add_order(mk(1, 10));
+    level.add_order(model::mk(model::Kind::Iceberg, model::oid(2), price, 5, 9, pricelevel::Side::Sell, 2, pricelevel::TimeInForce::Gtc, &model::Params::default()));
+    level.add_order(mk(3, 7));
+    let stop = Arc::new(AtomicBool::new(false));
+    let misses = Arc::new(AtomicU64::new(0));
+    let amends = Arc::new(AtomicU64::new(0));
+    let first: Arc<Mutex<Option<String>>> = Arc::new(Mutex::new(None));
+    std::thread::scope(|s| {
+        // the amender: the only thread that ever touches X1..X3
+        {
+            let level = level.clone();
+            let stop = stop.clone();
+            let misses = misses.clone();
+            let amends = amends.clone();
+            let first = first.clone();
+            let xs = xs.clone();
+            s.spawn(move || {
+                let mut rng = Rng::derive(seed ^ 0xb157, 0);
+                for i in 0..ops {
+                    let id = xs[(i % 3) as usize];
+                    let u = if i % 5 == 4 {
+                        OrderUpdate::UpdatePriceAndQuantity {
+                            order_id: id,
+                            new_price: price,
+                            new_quantity: 1 + rng.below(20),
+                        }
+                    } else {
+                        OrderUpdate::UpdateQuantity {
+                            order_id: id,
+                            new_quantity: 1 + rng.below(20),
+                        }
+                    };
+                    amends.fetch_add(1, SeqCst);
+                    match level.update_order(u) {
+                        Ok(Some(_)) => {}
+                        other => {
+                            misses.fetch_add(1, SeqCst);
+                            let mut f = first.lock().unwrap();
+                            if f.is_none() {
+                                *f = Some(format!("amend #{} of {} returned {:?}", i, id, other.map(|o| o.map(|a| a.to_string()))));
+                            }
+                        }
+                    }
+                }
+                stop.store(true, SeqCst);
+            });
+        }
+        for t in 0..threads {
+            let level = level.clone();
+            let stop = stop.clone();
+            s.spawn(move || {
+                let mut rng = Rng::derive(seed ^ 0xb157, 1 + t as u64);
+                let mut n = 10_000_000 * (t as u64 + 1);
+                let mut mine: Vec<pricelevel::OrderId> = Vec::new();
+                while !stop.load(SeqCst) {
+                    match rng.below(4) {
+                        0 => {
+                            n += 1;
+                            let o = mk(n, 1 + rng.below(9));
+                            mine.push(model::id_of(&o));
+                            level.add_order(o);
+                        }
+                        1 => {
+                            // cancel one of its own, or an id that is not in the book
+                            let id = if !mine.is_empty() && rng.chance(1, 2) {
+                                mine.swap_remove(rng.usize_below(mine.len()))
+                            } else {
+                                model::oid(900_000_000 + rng.below(100_000))
+                            };
+                            let _ = level.update_order(OrderUpdate::Cancel { order_id: id });
+                        }
+                        2 => {
+                            if let Some(id) = mine.last() {
+                                let _ = level.update_order(OrderUpdate::UpdateQuantity {
+                                    order_id: *id,
+                                    new_quantity: 1 + rng.below(9),
+                                });
+                            }
+                        }
+                        _ => {
+                            let _ = (level.visible_quantity(), level.order_count());
+                        }
+                    }
+                    if mine.len() > 64 {
+                        let id = mine.swap_remove(0);
+                        let _ = level.update_order(OrderUpdate::Cancel { order_id: id });
+                    }
+                }
+            });
+        }
+    });
+    rep.add("bystander_amends_of_untouched_orders", amends.load(SeqCst));
+    rep.add("bystander_threads", threads as u64 + 1);
+    let m = misses.load(SeqCst);
+    if m > 0 {
+        rep.violation(
+            format!(
+                "bystander workload: {} of {} amends of orders that no other thread ever touches did not find their order; first: {}",
+                m,
+                amends.load(SeqCst),
+                first.lock().unwrap().clone().unwrap_or_default()
+            ),
+            json!({"engine": "e2-bystander", "property": "C13", "seed": seed, "misses": m}),
+        );
+    }
 }
